@@ -39,7 +39,7 @@ type c03Item struct {
 }
 
 type c03Seen struct {
-	sni, path, user, pass string
+	sni, path, user, pass    string
 	hasURL, hasUser, hasPass bool
 	proto                    dnsserver.Protocol
 	n                        int
